@@ -274,14 +274,14 @@ func (s *shared) exec(o opSpec) string {
 // race child
 
 type raceResult struct {
-	Ops            int64            `json:"ops"`
-	Rounds         int              `json:"rounds"`
-	Mismatches     []core.Violation `json:"mismatches"`
-	SharedTouched  int64            `json:"shared_objects_touched_by_2plus_goroutines"`
-	OverlapPairs   int64            `json:"overlapping_op_pairs"`
-	NTKeys         []uint64         `json:"nt_keys"`
-	ByOp           map[string]int64 `json:"by_op"`
-	Done           bool             `json:"done"`
+	Ops           int64            `json:"ops"`
+	Rounds        int              `json:"rounds"`
+	Mismatches    []core.Violation `json:"mismatches"`
+	SharedTouched int64            `json:"shared_objects_touched_by_2plus_goroutines"`
+	OverlapPairs  int64            `json:"overlapping_op_pairs"`
+	NTKeys        []uint64         `json:"nt_keys"`
+	ByOp          map[string]int64 `json:"by_op"`
+	Done          bool             `json:"done"`
 }
 
 type stamp struct {
